@@ -34,6 +34,7 @@ INPUTS = [["n"], ["b", True], ["b", False], ["i", "0"], ["i", "-1"], ["i", "7"],
           ["s", ""], ["s", "  "], ["s", "abc def"], ["s", "héllo wörld"], ["s", "é́x"], ["s", "12"], ["s", "3.5"], ["s", "<a href='x'>&amp;</a>"], ["s", "%41+%zz%c3%a9"], ["s", "caf%FF"], ["s", "%C3"], ["s", "a" + "é" * 40], ["s", "日" * 25],
           ["a", []], ["a", [["i", "3"], ["s", "a"], ["n"], F(1.5), ["b", True]]], ["a", [["a", [["i", "1"], ["i", "2"]]], ["a", [["i", "3"]]]]],
           ["a", [["i", str(i % 7)] for i in range(40)]], ["a", [["o", [["a", ["i", "2"]]]], ["o", [["a", ["i", "1"]]]], ["o", [["b", ["s", "x"]]]]]],
+          ["a", [["o", [["a", ["i", "1"]]]], ["o", [["a", ["s", "x"]]]], ["o", [["a", ["a", [["i", "1"]]]]]], ["o", [["a", ["b", True]]]]]],      # property values that do not order against each other
           ["o", []], ["o", [["a", ["i", "1"]]]], ["o", [["a", ["o", [["b", ["a", [["i", "1"]]]]]]]]]]
 INPUTS_THOROUGH = [F(float("nan")), F(float("inf")), F(-0.0), ["s", "\U0001F1F7\U0001F1FA👍🏽"], ["s", "a" * 300], ["a", [["s", "b"], ["s", "A"], ["s", "a"], ["s", "B"]]], ["i", "10000"], ["s", "-"], ["st", "Empty"]]
 ARGS = [["n"], ["b", True], ["i", "0"], ["i", "-1"], ["i", "1"], ["i", "3"], ["i", "10000"], ["i", str(I64MIN)], ["i", str(I64MAX)], F(0.5), F(-2.5), ["s", ""], ["s", " "], ["s", "a"], ["s", "é"], ["s", "2"], ["s", "ab" + "日" * 22],
